@@ -48,6 +48,8 @@ def queries(tier):
         maxname = max([1] + [l - 2 for l in ls])          # flag names have length 1, --name up to len-2
         maxvals = sum(max(1, l - 1) for l in ls)          # "-ab" contributes len-1 values
         qlist = [(1, i, 0) for i in range(nt + 1)] + [(2, j, k) for k in range(0, maxname + 1) for j in range(min(maxvals, nt if k != 1 else maxvals) + 1)]
+        if tier == 'quick':  # the decisive queries only: every positional index, first/second value of a 1-byte name, first value of the longest name
+            qlist = [(1, i, 0) for i in range(nt + 1)] + [(2, 0, 1), (2, 1, 1)] + ([(2, 0, maxname)] if maxname > 1 else [])
         cname = '_'.join('%d%d' % t for t in toks_)
         for qk, qi, kl in qlist:
             dd = dict(d, QKIND=qk, QIDX=qi, KLEN=kl)
@@ -61,14 +63,14 @@ def queries(tier):
             for pos in (0, 1):
                 gcells.append((tk, op, pos, 0))
     for op in NAMED_OPS:
-        for tk in ([S2, LO3] if tier == 'quick' else [S2, LO1, LO2, LO3]):
+        for tk in (([S2, LO3] if op in (2, 7, 11) else [S2]) if tier == 'quick' else [S2, LO1, LO2, LO3]):
             for kl in ([1] if tier == 'quick' else [0, 1, 2]):
                 gcells.append((tk, op, 0, kl))
     for op in (5, 12):
         gcells.append((F2S, op, 0, 1)); gcells.append((F2, op, 0, 1))
     for (k, l), op, pos, kl in gcells:
         qs.append(dict(name='get_%d%d_op%d_p%d_k%d' % (k, l, op, pos, kl), unit='cls', harness='h_get.c', defs={'K0': k, 'L0': l, 'OP': op, 'POS': pos, 'KLEN': kl},
-                       unwind=8, unwindset='strlen.0:34,verif_memcpy_loop.0:34,verif_memmove_loop.0:34,verif_memmove_loop.1:34', timeout=600, mem_gb=8, flags=FAST, tv_runs=150,
+                       unwind=8, unwindset='strlen.0:34,verif_memcpy_loop.0:34,verif_memmove_loop.0:34,verif_memmove_loop.1:34', timeout=900, mem_gb=12 if l >= 5 else 8, flags=FAST, tv_runs=150,
                        desc='getter op %d on one token (kind %d, length %d), pos %d / symbolic key of %d bytes, then assert_none_unused' % (op, k, l, pos, kl),
                        bounds='one token of kind/length (%d,%d)' % (k, l)))
     for l in (0, 1, 2):
